@@ -191,6 +191,7 @@ def gen_deck(rng, flavour=None):
             for _ in range(rng.randint(8, 20) if many else rng.randint(1, 5)):
                 refs.append(str(1000 * rng.choice(trcl_cells)
                                 + rng.choice(sids)))
+            rng.shuffle(refs)
             others = lits_for(rng.sample(sids, 2))
             expr = ' '.join(refs) if rng.random() < 0.5 \
                 else ' : '.join(refs)
@@ -509,6 +510,47 @@ tr1 0 3 0
 5 so 6
 6 so 0.3
 7 so 0.2
+
+""", []),
+]
+
+
+REGRESSION += [
+    # the iteration order of the int set of 1000*cell+surf ids is NOT
+    # ascending: 2008 & 7 = 0 < 1001 & 7 = 1, so CPython delivers [2008, 1001];
+    # both are one-nappe cones, so the order decides the auxiliary plane ids
+    ('trsurf-non-ascending', """tr ids not ascending
+1 0 -1 trcl=(1 0 0) imp:n=1
+2 0 -8 trcl=(0 2 0) imp:n=1
+3 0 1001 2008 imp:n=1
+4 0 9 imp:n=0
+
+1 kz 0 1 1
+8 kz 1 0.5 -1
+9 so 9
+
+""", ['--skip-deduplication']),
+    # 24 ids: the set table grows 8 -> 32 -> 128; ids colliding modulo 8, 32
+    # and 128 (same low bits) are ordered by insertion, the others by their low
+    # bits; every id is a cone
+    ('trsurf-collisions', """tr ids colliding in the set table
+1 0 -1 trcl=(1 0 0) imp:n=1
+2 0 -2 trcl=(0 2 0) imp:n=1
+3 0 -3 trcl=(0 0 3) imp:n=1
+4 0 -1 -2 trcl=(1 1 0) imp:n=1
+5 0 -3 -2 trcl=(0 1 1) imp:n=1
+9 0 -1 -3 trcl=(2 0 1) imp:n=1
+17 0 -2 trcl=(2 2 0) imp:n=1
+33 0 -3 trcl=(0 2 2) imp:n=1
+20 0 33001 1001 17001 9001 5001 3001 2001 4001 imp:n=1
+21 0 1002 : 2002 : 33002 : 17002 : 9002 : 5002 : 4002 : 3002 imp:n=1
+22 0 33003 3003 1003 9003 17003 5003 2003 4003 imp:n=1
+30 0 8 imp:n=0
+
+1 kz 0 1 1
+2 kz 1 0.5 -1
+3 k/x 0 0 0 2 1
+8 so 30
 
 """, []),
 ]
